@@ -9,30 +9,50 @@
 // translated functions) are sequenced with gbind in Go evaluation order.
 //
 // SUBSET (anything else is a hard error for that function, never a silent skip):
-//   types      bool, sized/unsized integers, []T / [N]T with T an integer type (list Z), error
-//              (goerror: nil | sentinel class | anonymous), struct types whose fields are in the
-//              subset (generated Record; fields of other types are left out and may not be touched),
-//              *Struct (option Struct; nil dereference = GPanic; no writes through pointers),
-//              interface types registered with registerAbstractBytes2 (list Z: their encoded bytes;
-//              only Len() and AppendTo(dst) may be called) - a trusted abstraction.
-//   exprs      constants (folded by go/types), locals, field reads, x[i], x[i:j], len, append
-//              (elements or src...), make([]T,n[,c]), min/max, conversions between integer types,
-//              [N]T(slice), struct / array / slice literals, &Struct{...}, &local (in return only),
-//              *p, integer / boolean / comparison / shift / bitwise operators with explicit
-//              wrap-around (GoInt.v), == on byte arrays, ==/!= nil on error and pointers,
-//              binary.BigEndian.Uint16/32/64, AppendUint16/32/64, fmt.Errorf (class of the single
-//              %w operand), errors.New, calls of translated functions / methods (same or other
-//              translated package).
-//   stmts      :=, =, op=, ++/--, var, const, tuple assignment from a call, assignment to x[i] and
-//              s.f of locals, if/else (with init), switch (tagged/tagless, no fallthrough), return,
-//              copy(x[i:j], src), binary.BigEndian.PutUint16/32/64(x[i:j], v),
-//              for i, v := range x / for _, v := range x / for i := range x / for i := range n,
-//              for i := a; i < n; i++ (i, n not assigned in the body), break, continue, return
-//              inside loops, panic(...).
-//   aliasing   slices are values. A write into a slice variable (x[i] = v, copy, PutUint) is accepted
-//              only when the variable was created by make in the same function and never copied to
-//              another variable; writes into slice parameters are rejected. Arrays are Go values.
-//   shadowing  a local that shadows another local of the same function is rejected.
+//
+//	types      bool, sized/unsized integers, []T / [N]T with T an integer type (list Z), error
+//	           (goerror: nil | sentinel class | anonymous), struct types whose fields are in the
+//	           subset (generated Record; fields of other types are left out and may not be touched),
+//	           *Struct (option Struct; nil dereference = GPanic; no writes through pointers),
+//	           interface types registered with registerAbstractBytes2 (list Z: their encoded bytes;
+//	           only Len() and AppendTo(dst) may be called) - a trusted abstraction.
+//	exprs      constants (folded by go/types), locals, field reads, x[i], x[i:j], len, append
+//	           (elements or src...), make([]T,n[,c]), min/max, conversions between integer types,
+//	           [N]T(slice), struct / array / slice literals, &Struct{...}, &local (in return only),
+//	           *p, integer / boolean / comparison / shift / bitwise operators with explicit
+//	           wrap-around (GoInt.v), == on byte arrays, ==/!= nil on error and pointers,
+//	           binary.BigEndian.Uint16/32/64, AppendUint16/32/64, fmt.Errorf (class of the single
+//	           %w operand), errors.New, calls of translated functions / methods (same or other
+//	           translated package).
+//	stmts      :=, =, op=, ++/--, var, const, tuple assignment from a call, assignment to x[i] and
+//	           s.f of locals, if/else (with init), switch (tagged/tagless, no fallthrough), return,
+//	           copy(x[i:j], src), binary.BigEndian.PutUint16/32/64(x[i:j], v),
+//	           for i, v := range x / for _, v := range x / for i := range x / for i := range n,
+//	           for i := a; i < n; i++ (i, n not assigned in the body), break, continue, return
+//	           inside loops, panic(...).
+//	interfaces a closed interface registered with registerSum2 is the sum of its listed
+//	           implementations (+ nil); a method call on it dispatches on the constructor (nil =
+//	           GPanic). CLOSED-WORLD: implementations that are not listed are outside the model.
+//	           registerAbstractCtor2 marks a function returning an abstract-bytes interface that
+//	           holds exactly its []byte argument (discharge it by translating the implementation).
+//	atomics    sync/atomic.Uint32/Uint64/Int32/Int64 fields are the integer they hold; Load / Add /
+//	           Store are single sequential steps (the tie is about arithmetic, not atomicity).
+//	receivers  a pointer-receiver method that writes through its receiver is translated
+//	           state-passing: it returns (updated receiver, results). Calls of such methods from
+//	           other translated code are rejected.
+//	aliasing   slices are values. A write into a slice variable (x[i] = v, copy, PutUint) is accepted
+//	           only when the variable was created by make in the same function and never copied to
+//	           another variable; writes into slice parameters are rejected; a ranged slice may not be
+//	           assigned in the loop body. Arrays are Go values. A write through a pointer is accepted
+//	           only for a local created by p := &T{...} that is never copied (and for the receiver of
+//	           a state-passing method).
+//	shadowing  a local that shadows another local of the same function is rejected.
+//	capacity   not modelled: s[lo:hi] is checked against len(s) (stricter than Go's cap(s)).
+//
+// Output: one Coq Module per package (dependency order), generated Records for the struct types
+// used, an Inductive per sum interface, and one `Definition f ... : gres T` per function, each
+// preceded by its source range and a hash of its source text. Self-test: bin/vtie2 --selftest
+// (translator/testdata2).
 package main
 
 import (
@@ -149,16 +169,16 @@ type recInfo struct {
 }
 
 type v2 struct {
-	ci    *chainImporter
-	fset  *token.FileSet
-	fns   map[*types.Func]*fnInfo
-	recs  map[*types.TypeName]*recInfo
-	recOf map[string][]*recInfo // per module, in dependency order
-	mods  map[string]string     // package path -> module name
-	deps  map[string]map[string]bool // module -> modules it refers to
-	sumDecl map[string][]string      // module -> Inductive declarations of the sum interfaces used
+	ci      *chainImporter
+	fset    *token.FileSet
+	fns     map[*types.Func]*fnInfo
+	recs    map[*types.TypeName]*recInfo
+	recOf   map[string][]*recInfo      // per module, in dependency order
+	mods    map[string]string          // package path -> module name
+	deps    map[string]map[string]bool // module -> modules it refers to
+	sumDecl map[string][]string        // module -> Inductive declarations of the sum interfaces used
 	sumSeen map[*sumInfo]bool
-	errs  []string
+	errs    []string
 }
 
 type bind struct {
